@@ -127,6 +127,11 @@ def generate(rs, tier):
       ops.append(dict(op='returned', how=g.choice(['meta', 'meta', 'reattach']), which=g.randrange(4), node=g.randrange(64), key=g.choice(['tag', 'note']), value=g.choice(['x', 'y', 3])))
     else:
       ops.append(dict(op='gc'))
+  if g.random() < 0.2:
+    # some Variables carry a user set-hook: program assignments go through it on both sides; the write-back of a
+    # transform is not a user assignment
+    for _ in range(g.choice([1, 2])):
+      build.append(dict(op='setmeta', var=g.randrange(64), key='on_set_value', value='@SETHOOK'))
   has_cp = any(f['T'] == 'cached_partial' for f in fns)
   if has_cp and g.random() < 0.85:
     # cached_partial does not support raw array attributes (known finding cached-partial-array-attribute)
@@ -529,6 +534,20 @@ class TwinHeaps:
       if ca != cb:
         raise Violation('state-differs-from-eager', f'{where}: object graph after the transformed call {W._short(ca)} differs from the eager run {W._short(cb)}')
 
+  def check_no_tracers(self, where):
+    """Whatever a failed transformed call leaves behind, it must be ordinary values: a tracer left in one of the
+    caller's Variables / array attributes poisons every later use of the object."""
+    for nid in self.A.nodes:
+      for path, x in reachable(self.A.real[nid]):
+        vals = []
+        if isinstance(x, nnx.Variable):
+          vals.append(x.raw_value)
+        elif isinstance(x, nnx.Object):
+          vals.extend(v for kk, v in vars(x).items() if kk != '_object__state' and hasattr(v, 'dtype'))
+        for v in vals:
+          if isinstance(v, jax.core.Tracer):
+            raise Violation('tracer-leaked', f'{where}: after the failed call the caller\'s object at {path} holds a tracer ({type(v).__name__})')
+
   def resync(self):
     """B := structural copy of A (harness-side deepcopy, sharing across roots preserved)."""
     self.B.real = twin_copy(self.A.real)  # one memo: sharing between roots, Variables and containers preserved
@@ -601,6 +620,7 @@ class TwinHeaps:
         if not raised:
           raise Violation('exception-swallowed', f'{where}: exception injected inside the trace did not reach the caller')
         self.after_fault = True
+        self.check_no_tracers(where)
         self.resync()
         self.log.add(oi, 'call', T, 'fault')
         return
